@@ -48,6 +48,8 @@ module Nat :
 
   val ltb : nat -> nat -> bool
 
+  val max : nat -> nat -> nat
+
   val min : nat -> nat -> nat
 
   val divmod : nat -> nat -> nat -> nat -> nat * nat
@@ -1671,6 +1673,350 @@ val v_start : start_res -> val0
 
 val dispatch_http : z -> val0 -> val0 option
 
+type 'item result = 'item * z
+
+val matches_of :
+  ('a2 -> 'a1 -> z option) -> 'a2 -> 'a1 list -> 'a1 result list
+
+val rank_before : ('a1 -> z) -> bool -> 'a1 result -> 'a1 result -> bool
+
+val rank_insert :
+  ('a1 -> z) -> bool -> 'a1 result -> 'a1 result list -> 'a1 result list
+
+val rank_sort : ('a1 -> z) -> bool -> 'a1 result list -> 'a1 result list
+
+val oracle :
+  ('a1 -> z) -> ('a2 -> 'a1 -> z option) -> ('a2 -> bool) -> ('a2 -> bool) ->
+  bool -> bool -> 'a2 -> 'a1 list -> 'a1 list
+
+type 'item lop =
+| LPush of 'item
+| LReject
+| LClear
+| LSnap of nat
+
+val trim : nat -> 'a1 list -> 'a1 list
+
+val live : 'a1 list -> 'a1 lop list -> 'a1 list list
+
+val chunk_size : nat
+
+type 'item cell0 = 'item list
+
+type 'item store = 'item cell0 list
+
+type 'item clist = { cl_store : 'item store; cl_chunks : nat list }
+
+val cl_empty : 'a1 clist
+
+val alloc : 'a1 store -> 'a1 cell0 -> 'a1 store * nat
+
+val deref_all : 'a1 store -> nat list -> 'a1 cell0 list res
+
+val last_of : 'a1 -> 'a1 list -> 'a1
+
+val last_opt : 'a1 list -> 'a1 option
+
+val count_items : nat list -> nat
+
+val push_gen : 'a1 clist -> 'a1 option -> 'a1 clist res
+
+val push : 'a1 clist -> 'a1 -> 'a1 clist res
+
+val clear : 'a1 clist -> 'a1 clist
+
+val num_keep : nat -> nat list -> nat
+
+val trim_rev :
+  'a1 store -> nat -> nat list -> (('a1 store * nat list) * nat list) res
+
+val dup : 'a1 store -> nat -> ('a1 store * nat) res
+
+type 'item snap_result = { sn_cl : 'item clist; sn_ids : nat list;
+                           sn_count : nat; sn_changed : bool;
+                           sn_retired : nat list }
+
+val snap_trim : 'a1 clist -> nat -> (('a1 clist * bool) * nat list) res
+
+val snap_dup_first :
+  'a1 store -> nat list -> nat -> ('a1 store * nat list) res
+
+val snap_dup_last : 'a1 store -> nat list -> ('a1 store * nat list) res
+
+val snapshot : 'a1 clist -> nat -> 'a1 snap_result res
+
+type 'item cop =
+| CPush of 'item
+| CReject
+| CClear
+| CSnap of nat
+
+val cstep :
+  ('a1 clist * 'a1 snap_result list) -> 'a1 cop -> ('a1 clist * 'a1
+  snap_result list) res
+
+val cstep1 : 'a1 clist -> 'a1 cop -> 'a1 clist res
+
+val query_cache_max : nat
+
+type 'r centry = (nat * str) * 'r list
+
+type 'r cache = { c_entries : 'r centry list; c_gen : nat }
+
+val cache_new : 'a1 cache
+
+val is_full : nat -> bool
+
+val efind : 'a1 centry list -> nat -> str -> 'a1 list option
+
+val cfind : 'a1 cache -> nat -> str -> 'a1 list option
+
+val cache_add_gen :
+  nat option -> 'a1 cache -> nat -> nat -> str -> 'a1 list -> 'a1 cache
+
+val cache_add : 'a1 cache -> nat -> nat -> str -> 'a1 list -> 'a1 cache
+
+val cache_add_rule :
+  bool -> nat -> 'a1 cache -> nat -> nat -> str -> 'a1 list -> 'a1 cache
+
+val cache_lookup : 'a1 cache -> nat -> nat -> str -> 'a1 list option
+
+val search_from : 'a1 cache -> nat -> str -> nat -> nat -> 'a1 list option
+
+val cache_search : 'a1 cache -> nat -> nat -> str -> 'a1 list option
+
+val cache_retire : 'a1 cache -> nat list -> 'a1 cache
+
+val cache_clear : 'a1 cache -> 'a1 cache
+
+val cache_invalidate : 'a1 cache -> 'a1 cache
+
+val merger_cache_max : z
+
+type revision = z * z
+
+val rev_eqb : revision -> revision -> bool
+
+type rules = { rule_prev : bool; rule_seq : bool; rule_gen : bool }
+
+val rules_fixed : rules
+
+type ('item, 'pat) penv = { e_idx : ('item -> z);
+                            e_matchf : ('pat -> 'item -> z option);
+                            e_pkey : ('pat -> str); e_ckey : ('pat -> str);
+                            e_pgen : ('pat -> nat);
+                            e_cacheable : ('pat -> bool);
+                            e_sortable : ('pat -> bool);
+                            e_empty : ('pat -> bool); e_rules : rules;
+                            e_tac : bool; e_parts : nat }
+
+type 'item result0 = 'item * z
+
+type 'item chunk = nat * 'item list
+
+type 'item ccache = 'item result0 cache
+
+type ('item, 'pat) request = { r_chunks : 'item chunk list; r_pat : 'pat;
+                               r_final : bool; r_sort : bool; r_rev : 
+                               revision }
+
+type 'item merger_body =
+| MPass of 'item list list
+| MLists of 'item result0 list list * bool
+
+type 'item merger = { mg_body : 'item merger_body; mg_tac : bool;
+                      mg_final : bool; mg_rev : revision }
+
+val merger_count : 'a1 merger -> nat
+
+val merger_cacheable : 'a1 merger -> bool
+
+val set_final : 'a1 merger -> bool -> 'a1 merger
+
+val merger_view : ('a1, 'a2) penv -> 'a1 merger -> 'a1 list
+
+val match_items : ('a1, 'a2) penv -> 'a2 -> 'a1 list -> 'a1 result0 list
+
+val pattern_match :
+  ('a1, 'a2) penv -> 'a1 ccache -> 'a2 -> 'a1 chunk -> 'a1 result0 list * 'a1
+  ccache
+
+val slice_go : nat -> nat -> 'a1 list -> 'a1 list list
+
+val slice_chunks : ('a1, 'a2) penv -> 'a3 list -> 'a3 list list
+
+type ('item, 'pat) box = { b_retry : (nat * ('item, 'pat) request) option;
+                           b_reset : (nat * ('item, 'pat) request) option;
+                           b_seq : nat }
+
+val box_empty : ('a1, 'a2) box
+
+val box_clear : ('a1, 'a2) box -> ('a1, 'a2) box
+
+val box_post : ('a1, 'a2) box -> bool -> ('a1, 'a2) request -> ('a1, 'a2) box
+
+val box_take :
+  ('a1, 'a2) penv -> ('a1, 'a2) box -> bool -> ('a1, 'a2) request option
+
+val box_has_reset : ('a1, 'a2) box -> bool
+
+type 'item wstate =
+| WRun
+| WDone of 'item result0 list
+| WAbort
+
+type 'item worker = { w_todo : 'item chunk list;
+                      w_acc : 'item result0 list list; w_st : 'item wstate }
+
+type 'item phase =
+| PRecv
+| PCollect
+| PCancel
+| PRet of 'item result0 list list option
+
+type ('item, 'pat) sstate0 = { s_cache : 'item ccache;
+                               s_ws : 'item worker list; s_total : nat;
+                               s_sent : nat; s_recv : nat;
+                               s_cancelled : bool; s_box : ('item, 'pat) box;
+                               s_phase : 'item phase }
+
+type ('item, 'pat) label =
+| LWork of nat
+| LRecv
+| LCollect
+| LJoin
+| LPost of bool * ('item, 'pat) request
+| LInvalidate
+
+val finish0 :
+  ('a1, 'a2) penv -> bool -> 'a1 result0 list list -> 'a1 result0 list
+
+val work :
+  ('a1, 'a2) penv -> 'a2 -> bool -> ('a1, 'a2) sstate0 -> nat -> ('a1, 'a2)
+  sstate0
+
+val all_done : 'a1 worker list -> 'a1 result0 list list option
+
+val none_running : 'a1 worker list -> bool
+
+val sstep0 :
+  ('a1, 'a2) penv -> 'a2 -> bool -> ('a1, 'a2) sstate0 -> ('a1, 'a2) label ->
+  ('a1, 'a2) sstate0
+
+val srun0 :
+  ('a1, 'a2) penv -> 'a2 -> bool -> ('a1, 'a2) sstate0 -> ('a1, 'a2) label
+  list -> ('a1, 'a2) sstate0
+
+val sinit :
+  ('a1, 'a2) penv -> 'a1 ccache -> ('a1, 'a2) box -> 'a1 chunk list -> ('a1,
+  'a2) sstate0
+
+val sidle : 'a1 ccache -> ('a1, 'a2) box -> ('a1, 'a2) sstate0
+
+val fair_sched : ('a1, 'a2) penv -> 'a1 chunk list -> ('a1, 'a2) label list
+
+type 'item mstate = { m_sort : bool; m_rev : revision;
+                      m_mcache : (str * 'item merger) list; m_prev : 
+                      nat; m_cache : 'item ccache }
+
+val minit : bool -> revision -> 'a1 mstate
+
+val mc_find : (str * 'a1 merger) list -> str -> 'a1 merger option
+
+val req_count : ('a1, 'a2) request -> nat
+
+val mc_decide :
+  ('a1, 'a2) penv -> 'a1 mstate -> ('a1, 'a2) request -> ('a1 merger
+  option * (str * 'a1 merger) list) * nat
+
+val loop_body :
+  ('a1, 'a2) penv -> 'a1 mstate -> ('a1, 'a2) box -> ('a1, 'a2) request ->
+  ('a1, 'a2) label list -> (('a1 mstate * ('a1, 'a2) box) * 'a1 merger
+  option) res
+
+type ('item, 'pat) event =
+| EPost of bool * ('item, 'pat) request
+| EInvalidate
+| EIter of bool * ('item, 'pat) label list
+
+type ('item, 'pat) lstate = { l_m : 'item mstate; l_box : ('item, 'pat) box;
+                              l_pubs : (('item, 'pat) request * 'item merger)
+                                       list; l_glast : nat }
+
+val linit : bool -> revision -> ('a1, 'a2) lstate
+
+val lstep :
+  ('a1, 'a2) penv -> ('a1, 'a2) lstate -> ('a1, 'a2) event -> ('a1, 'a2)
+  lstate res
+
+val lrun :
+  ('a1, 'a2) penv -> ('a1, 'a2) lstate -> ('a1, 'a2) event list -> ('a1, 'a2)
+  lstate res
+
+type wpat = { wp_text : str; wp_ckey : str; wp_cacheable : bool;
+              wp_sortable : bool; wp_empty : bool; wp_tab : (z * z) list;
+              wp_gen : nat }
+
+val tab_find : (z * z) list -> z -> z option
+
+val w_matchf : wpat -> z -> z option
+
+val w_idx : z -> z
+
+val as_pair : val0 -> z * z
+
+val as_wpat : val0 -> wpat
+
+val vints : z list -> val0
+
+val as_ints : val0 -> z list
+
+val vopt : z list option -> val0
+
+val as_cop : val0 -> z cop
+
+val as_lop : val0 -> z lop
+
+val v_cells : z list list res -> val0
+
+val d_chunklist : z cop list -> val0
+
+val d_cache : z cache -> val0 list -> val0 list
+
+type wreq = (z, wpat) request
+
+type wchunk = nat * z list
+
+val wenv : rules -> bool -> nat -> (z, wpat) penv
+
+val chunk_find : wchunk list -> nat -> wchunk
+
+val as_chunk : val0 -> wchunk
+
+val pat_nth : wpat list -> nat -> wpat
+
+val as_req : wpat list -> wchunk list -> val0 -> wreq
+
+val v_pub : (z, wpat) penv -> z merger -> val0
+
+val as_rules : val0 -> rules
+
+val as_env : val0 -> (z, wpat) penv
+
+val d_loop : val0 -> val0
+
+val d_scans : val0 -> val0
+
+val d_twoslot : val0 -> val0
+
+val d_pmatch : val0 -> val0
+
+val d_oracle : val0 -> val0
+
+val d_slices : val0 -> val0
+
+val dispatch_matcher : z -> val0 -> val0 option
+
 type field = nat
 
 val f_FUZZY : field
@@ -1793,7 +2139,7 @@ val crit_names : (str * z) list
 
 val scheme_criteria : str -> z list option
 
-val vints : z list -> val0
+val vints0 : z list -> val0
 
 val e_UNKNOWN_OPTION : z
 
@@ -2179,27 +2525,27 @@ type topts = { to_ansi : bool; to_print0 : bool; to_print_query : bool;
 
 type smap = (nat * (nat * item1)) list
 
-type sstate0 = smap * nat
+type sstate1 = smap * nat
 
 val m_find : nat -> smap -> (nat * item1) option
 
 val m_delete : nat -> smap -> smap
 
-val select_item0 : nat -> item1 -> sstate0 -> sstate0 * bool
+val select_item0 : nat -> item1 -> sstate1 -> sstate1 * bool
 
-val deselect_item0 : item1 -> sstate0 -> sstate0
+val deselect_item0 : item1 -> sstate1 -> sstate1
 
-val toggle_item0 : nat -> item1 -> sstate0 -> sstate0 * bool
+val toggle_item0 : nat -> item1 -> sstate1 -> sstate1 * bool
 
 val insert_by_time : (nat * item1) -> (nat * item1) list -> (nat * item1) list
 
 val sort_selected : smap -> item1 list
 
-type term = { t_merger : item1 list; t_cy : z; t_sel : sstate0;
+type term = { t_merger : item1 list; t_cy : z; t_sel : sstate1;
               t_queue : str list; t_input : str; t_pressed : str;
               t_reading : bool; t_count : nat }
 
-val with_sel0 : term -> sstate0 -> term
+val with_sel0 : term -> sstate1 -> term
 
 val with_cy : term -> z -> term
 
@@ -2251,14 +2597,14 @@ type outcome1 =
 | Running of term
 | Exited of str * z
 
-val select_all_loop0 : nat -> item1 list -> sstate0 -> sstate0
+val select_all_loop0 : nat -> item1 list -> sstate1 -> sstate1
 
-val deselect_all_loop0 : item1 list -> sstate0 -> sstate0
+val deselect_all_loop0 : item1 list -> sstate1 -> sstate1
 
 val toggle_all_1 :
-  nat -> item1 list -> sstate0 -> nat list -> sstate0 * nat list
+  nat -> item1 list -> sstate1 -> nat list -> sstate1 * nat list
 
-val toggle_all_2 : nat -> nat -> item1 list -> sstate0 -> nat list -> sstate0
+val toggle_all_2 : nat -> nat -> item1 list -> sstate1 -> nat list -> sstate1
 
 val toggle_current0 : topts -> term -> (term * bool) res
 
@@ -2362,7 +2708,7 @@ val trim_left0 : str -> str
 
 val trim_right_rev : str -> str
 
-val trim : str -> str
+val trim0 : str -> str
 
 val emit : 'a1 list -> 'a1 list list -> 'a1 list list
 
@@ -2520,7 +2866,7 @@ val step0 : lst -> z -> lst option
 
 val run1 : lst -> str -> lst option
 
-val finish0 : lst -> str list option
+val finish1 : lst -> str list option
 
 val l_init : lst
 
@@ -2860,7 +3206,7 @@ type item3 = { it_index0 : z; it_text0 : str }
 
 type points = ((z * z) * z) * z
 
-type result = { r_index : z; r_points : points }
+type result1 = { r_index : z; r_points : points }
 
 val set_point : points -> z -> z -> points res
 
@@ -2888,13 +3234,13 @@ val fill_points :
   (z -> bool) -> z list -> z -> str -> span1 -> z -> points -> points res
 
 val build_result :
-  (z -> bool) -> z list -> item3 -> (z * z) list -> z -> result res
+  (z -> bool) -> z list -> item3 -> (z * z) list -> z -> result1 res
 
-val compare_ranks : result -> result -> bool -> bool
+val compare_ranks : result1 -> result1 -> bool -> bool
 
 val pack64 : points -> z
 
-val compare_ranks_x86 : result -> result -> bool -> bool
+val compare_ranks_x86 : result1 -> result1 -> bool -> bool
 
 val sort_insert : ('a1 -> 'a1 -> bool) -> 'a1 -> 'a1 list -> 'a1 list
 
@@ -2906,16 +3252,16 @@ val setz : 'a1 list -> z -> 'a1 -> 'a1 list res
 
 val sum_lengths : 'a1 list list -> z
 
-type ('i, 'a) merger = { mg_lists : 'a list list; mg_merged : 'a list;
-                         mg_chunks : 'i list list option;
-                         mg_cursors : z list; mg_sorted : bool;
-                         mg_tac : bool; mg_count : z }
+type ('i, 'a) merger0 = { mg_lists : 'a list list; mg_merged : 'a list;
+                          mg_chunks : 'i list list option;
+                          mg_cursors : z list; mg_sorted : bool;
+                          mg_tac0 : bool; mg_count : z }
 
-val new_merger : 'a2 list list -> bool -> bool -> ('a1, 'a2) merger
+val new_merger : 'a2 list list -> bool -> bool -> ('a1, 'a2) merger0
 
-val pass_merger : 'a1 list list -> bool -> ('a1, 'a2) merger
+val pass_merger : 'a1 list list -> bool -> ('a1, 'a2) merger0
 
-val merger_length : ('a1, 'a2) merger -> z
+val merger_length : ('a1, 'a2) merger0 -> z
 
 val scan_heads :
   ('a1 -> 'a1 -> bool) -> 'a1 list list -> z list -> z -> z -> 'a1 option ->
@@ -2926,28 +3272,28 @@ val extend :
   list * z list) res
 
 val merged_get :
-  ('a2 -> 'a2 -> bool) -> ('a1, 'a2) merger -> z -> ('a2 * ('a1, 'a2) merger)
-  res
+  ('a2 -> 'a2 -> bool) -> ('a1, 'a2) merger0 -> z -> ('a2 * ('a1, 'a2)
+  merger0) res
 
 val unsorted_get : 'a1 list list -> z -> 'a1 res
 
 val merger_get :
-  ('a1 -> 'a2) -> ('a2 -> 'a2 -> bool) -> z -> ('a1, 'a2) merger -> z ->
-  ('a2 * ('a1, 'a2) merger) res
+  ('a1 -> 'a2) -> ('a2 -> 'a2 -> bool) -> z -> ('a1, 'a2) merger0 -> z ->
+  ('a2 * ('a1, 'a2) merger0) res
 
 val probes :
-  ('a1 -> 'a2) -> ('a2 -> 'a2 -> bool) -> z -> ('a1, 'a2) merger -> z list ->
-  'a2 list res
+  ('a1 -> 'a2) -> ('a2 -> 'a2 -> bool) -> z -> ('a1, 'a2) merger0 -> z list
+  -> 'a2 list res
 
 val slices_from : 'a1 list -> nat -> z -> z -> z -> 'a1 list list res
 
-val slice_chunks : z -> 'a1 list -> 'a1 list list res
+val slice_chunks0 : z -> 'a1 list -> 'a1 list list res
 
 val match_chunk : ('a1 -> 'a2 option) -> 'a1 list -> 'a2 list
 
 val scan1 :
   ('a2 -> 'a2 -> bool) -> ('a1 -> 'a2 option) -> z -> bool -> bool -> bool ->
-  bool -> 'a1 list list -> ('a1, 'a2) merger res
+  bool -> 'a1 list list -> ('a1, 'a2) merger0 res
 
 val sp_of : z list -> z -> bool
 
@@ -2955,7 +3301,7 @@ val crit_of : z -> crit
 
 val as_offsets : val0 -> (z * z) list
 
-val vints0 : z list -> val0
+val vints1 : z list -> val0
 
 val vres : ('a1 -> val0) -> 'a1 res -> val0
 
@@ -2963,9 +3309,9 @@ val vpoints : points -> val0
 
 val as_points : val0 -> points
 
-val as_result : val0 -> result
+val as_result : val0 -> result1
 
-val ritem_of : result -> ritem
+val ritem_of : result1 -> ritem
 
 val d_key : val0 -> val0
 
@@ -2973,17 +3319,17 @@ val d_build : val0 -> val0
 
 val d_compare : val0 -> val0
 
-val as_results : val0 -> result list
+val as_results : val0 -> result1 list
 
-val less_of : bool -> result -> result -> bool
+val less_of : bool -> result1 -> result1 -> bool
 
-val idres : result -> result
+val idres : result1 -> result1
 
 val d_merger : val0 -> val0
 
 val d_pass : val0 -> val0
 
-val d_slices : val0 -> val0
+val d_slices0 : val0 -> val0
 
 val as_line : val0 -> line
 
@@ -2991,7 +3337,7 @@ val d_results : bool -> val0 -> val0
 
 val d_sort : val0 -> val0
 
-type witem = z * result option
+type witem = z * result1 option
 
 val as_witem : val0 -> witem
 
@@ -3043,7 +3389,7 @@ val deref : mem0 -> slice1 -> str res
 
 val write_at : mem0 -> nat -> nat -> str -> mem0 res
 
-val alloc : mem0 -> str -> mem0 * nat
+val alloc0 : mem0 -> str -> mem0 * nat
 
 val cR : z
 
@@ -3066,27 +3412,27 @@ val feed_loop :
 val feed :
   nat -> nat -> z -> bool -> str -> nat list -> (mem0 * slice1 list) res
 
-val deref_all : mem0 -> slice1 list -> str list res
+val deref_all0 : mem0 -> slice1 list -> str list res
 
 val feed_records : nat -> nat -> z -> bool -> str -> nat list -> str list res
 
-type 'a chunk = 'a list
+type 'a chunk0 = 'a list
 
-type 'a chunklist = 'a chunk list
+type 'a chunklist = 'a chunk0 list
 
-val is_full : nat -> 'a1 chunk -> bool
+val is_full0 : nat -> 'a1 chunk0 -> bool
 
-val last_chunk : 'a1 chunklist -> 'a1 chunk res
+val last_chunk : 'a1 chunklist -> 'a1 chunk0 res
 
-val count_items : nat -> 'a1 chunklist -> nat res
+val count_items0 : nat -> 'a1 chunklist -> nat res
 
-val push : nat -> 'a1 chunklist -> bool -> 'a1 -> 'a1 chunklist res
+val push0 : nat -> 'a1 chunklist -> bool -> 'a1 -> 'a1 chunklist res
 
-val num_chunks : z -> 'a1 chunk list -> nat
+val num_chunks : z -> 'a1 chunk0 list -> nat
 
-val trim_loop : z -> 'a1 chunk list -> 'a1 chunk list
+val trim_loop : z -> 'a1 chunk0 list -> 'a1 chunk0 list
 
-val snapshot :
+val snapshot0 :
   nat -> nat -> 'a1 chunklist -> ((('a1 chunklist * 'a1
   chunklist) * nat) * bool) res
 
@@ -3136,6 +3482,230 @@ val d_searchable : val0 -> val0
 val d_keep_tail : val0 -> val0
 
 val dispatch_record : z -> val0 -> val0 option
+
+val sP : z
+
+val gT : z
+
+val lT : z
+
+val dOT0 : z
+
+val dASH0 : z
+
+val sLASH : z
+
+val lPAR : z
+
+val rPAR : z
+
+val mAX_MULTI0 : z
+
+type layout =
+| LDefault
+| LReverse
+| LReverseList
+
+type info_style =
+| IDefault
+| IInline
+| IHidden
+
+type cfg1 = { c_w : nat; c_h0 : nat; c_layout : layout; c_info : info_style;
+              c_sep : bool; c_header : str list; c_hlines : str list;
+              c_multi0 : z }
+
+type view = { v_query : str; v_matches : (nat * str) list; v_total : 
+              nat; v_cy : nat; v_off0 : nat; v_sel : nat list }
+
+type row = z list
+
+val blank : nat -> row
+
+val pad : nat -> str -> row
+
+val ell : nat -> str
+
+val trunc : nat -> str -> str
+
+val dec_aux : nat -> z -> str -> str
+
+val dec : z -> str
+
+val decn : nat -> str
+
+val memb : nat -> nat list -> bool
+
+val info_text : cfg1 -> view -> str
+
+val trim_msg : nat -> str -> str
+
+val info_tail : cfg1 -> nat -> str -> str
+
+val prompt_text : view -> str
+
+val prompt_lines : cfg1 -> nat
+
+val nheader : cfg1 -> nat
+
+val max_items : cfg1 -> nat
+
+val prompt_row_text : cfg1 -> view -> row
+
+val info_row_text : cfg1 -> view -> row
+
+val header_row_text : cfg1 -> str -> row
+
+val item_row_text : cfg1 -> view -> nat -> (nat * str) -> row
+
+val list_slot_text : cfg1 -> view -> nat -> row
+
+val prompt_row : cfg1 -> nat
+
+val info_row : cfg1 -> nat
+
+val header_row : cfg1 -> nat -> nat
+
+val hline_row : cfg1 -> nat -> nat
+
+val list_row : cfg1 -> nat -> nat
+
+val row_at : row list -> nat -> row
+
+val rstrip_aux : str -> str * bool
+
+val rstrip : str -> str
+
+val row_eqb : row -> row -> bool
+
+val chk : z -> bool -> z list
+
+val chk_rows : nat -> nat -> row list -> z list
+
+val chk_headers :
+  z -> (nat -> nat) -> cfg1 -> row list -> nat -> str list -> z list
+
+val check_faithful : cfg1 -> view -> row list -> z list
+
+val clampn : nat -> nat -> nat -> nat
+
+val lines_before : nat -> nat -> nat
+
+val lines_after : nat -> nat -> nat -> nat
+
+val stuck : nat -> nat -> nat -> nat -> bool
+
+val phase0 : nat -> nat -> nat -> nat -> nat -> nat
+
+val phase1 : nat -> nat -> nat -> nat -> nat -> nat -> nat
+
+val constrain_body : nat -> nat -> nat -> nat -> nat -> nat * nat
+
+val constrain_loop0 : nat -> nat -> nat -> nat -> nat -> nat -> nat * nat
+
+val constrain1 : nat -> nat -> nat -> nat -> nat -> nat * nat
+
+val put : nat -> str -> row -> row
+
+val clear_from : nat -> nat -> row -> row
+
+val upd_at : nat -> ('a1 -> 'a1) -> 'a1 list -> 'a1 list
+
+type iline = { il_valid : bool; il_empty : bool; il_cur : bool;
+               il_sel : bool; il_qlen : nat; il_width : nat;
+               il_idx : nat option }
+
+val il_none : iline
+
+val il_blank : iline
+
+type term1 = { t_query : str; t_matches : (nat * str) list; t_total : 
+               nat; t_cy0 : nat; t_off : nat; t_sel0 : nat list;
+               t_screen : row list; t_prev : iline list }
+
+val t_view : term1 -> view
+
+val set_draw : term1 -> row list -> iline list -> term1
+
+val set_scroll : term1 -> nat -> nat -> term1
+
+val item_text : nat -> str -> str
+
+val idx_is : nat option -> nat -> bool
+
+val print_item :
+  nat -> nat -> nat -> nat list -> nat -> (nat * str) -> (iline * row) ->
+  iline * row
+
+val draw_rows :
+  nat -> nat -> nat -> nat list -> nat -> (nat * str) list -> (iline * row)
+  list -> (iline * row) list
+
+val list_start : cfg1 -> nat
+
+val print_list_at : cfg1 -> term1 -> term1
+
+val scroll_off_default : nat
+
+val print_list : cfg1 -> term1 -> term1
+
+val print_prompt : cfg1 -> term1 -> term1
+
+val print_info : cfg1 -> term1 -> term1
+
+val hdr_logical : cfg1 -> str list
+
+val print_header_from : nat -> nat -> str list -> row list -> row list
+
+val print_header : cfg1 -> term1 -> term1
+
+val paint : cfg1 -> term1 -> term1
+
+val full_redraw : cfg1 -> term1 -> term1
+
+type reqs = { rq_prompt : bool; rq_info : bool; rq_header : bool;
+              rq_list : bool; rq_full : bool }
+
+val is_inline : cfg1 -> bool
+
+val handle0 : cfg1 -> reqs -> term1 -> term1
+
+type upd = { u_query : str; u_matches : (nat * str) list; u_total : nat;
+             u_cy : nat; u_sel : nat list; u_reqs : reqs }
+
+val step1 : cfg1 -> term1 -> upd -> term1
+
+val term_of_view : view -> term1
+
+val start : cfg1 -> view -> term1
+
+val physical : cfg1 -> row list -> row list
+
+val render1 : cfg1 -> view -> row list
+
+val as_layout : val0 -> layout
+
+val as_info : val0 -> info_style
+
+val as_cfg0 : val0 -> cfg1
+
+val as_match : val0 -> nat * str
+
+val as_nats0 : val0 -> nat list
+
+val as_view : val0 -> view
+
+val as_reqs : val0 -> reqs
+
+val as_upd : val0 -> upd
+
+val vrows : row list -> val0
+
+val as_rows : val0 -> row list
+
+val d_run : cfg1 -> term1 -> upd list -> val0 list
+
+val dispatch_render : z -> val0 -> val0 option
 
 val is_blank1 : z -> bool
 
@@ -3189,7 +3759,7 @@ val digits : z -> str
 
 val itoa1 : z -> str
 
-val dOT0 : z
+val dOT1 : z
 
 val print_fexpr : fexpr -> str
 
@@ -3324,9 +3894,9 @@ val vmatch : ((z * z) * z list) option -> val0
 
 val dispatch_token : z -> val0 -> val0 option
 
-val sLASH : z
+val sLASH0 : z
 
-val dOT1 : z
+val dOT2 : z
 
 type entry =
 | File of str
@@ -3414,7 +3984,7 @@ val go_base : str -> str
 
 val split_ignores : str list -> (str list * str list) * str list
 
-val push0 : bool -> str -> str list
+val push1 : bool -> str -> str list
 
 val walk_fn :
   wopts -> ((str list * str list) * str list) -> str -> kind0 -> (str
